@@ -320,9 +320,102 @@ func genC07(out, tier string, rng *rand.Rand) {
 		}
 		sink.AddPre(c.pseudo(), c.coq(), js, nt)
 	}
+	// a request abandoned by its client while it waits for the object lock must not be performed
+	// (oracle only: the interleaving model has no cancellation)
+	for _, mk := range stores() {
+		for ka := 0; ka < 7; ka++ {
+			for _, kb := range []int{0, 1, 2, 3, 4, 5, 6, 10} {
+				c := abandonedCase(mk, ka, kb)
+				js, _ := json.Marshal(c)
+				sink.AddOracleOnly(c, string(js), js, true)
+			}
+		}
+	}
 	// the file store's non-atomic Add against a lock-free reader (finding GCS-10)
 	mix := Case{Store: "file", Tag: "file-add-mixture", Prog: []Req{{Kind: "get_bucket", B: "no-such-bucket"}}, Obs: []Resp{{Status: 404, Kind: "none", Notes: fileMixtureNotes()}}}
 	js, _ := json.Marshal(mix)
 	sink.AddPreV("seq", "check_all", "(list req * list resp)", mix, mix.coq(), js, true)
 	sink.Close("every interleaving (at the yield point between precondition check and store mutation, where the object lock is held) of two requests drawn from {unconditional upload, upload conditioned on the current generation, upload conditioned on non-existence, patch conditioned on the current metageneration, delete, compose with the destination among its sources, copy onto the object, metadata GET, media GET, upload of a compose source, the completing PUT of a resumable upload conditioned on the generation at session start, the same unconditioned} on one object, each schedule followed by a recorded round-robin drain; every step (parked / blocked on the object lock / returned + response) and the final state are compared with the interleaving model; both stores; plus the file store's three-step Add observed by a lock-free reader (tag file-add-mixture); thorough adds sampled three-thread schedules; non-trivial = some step was blocked on the object lock", true)
+}
+
+// abandonedCase: A (kind ka) parks holding the lock of obj (or of fresh for kind 2), B (kind kb) queues
+// behind it, B's client gives up, B returns, A finishes.  B must not have been performed: its answer is
+// not a success and the final state is what A alone produces (the same schedule is run again without B).
+func abandonedCase(mk storeMaker, ka, kb int) Case {
+	final := []Req{{Kind: "get_meta", B: c07B, N: "obj"}, {Kind: "get_media", B: c07B, N: "obj"}, {Kind: "get_meta", B: c07B, N: "fresh"}, {Kind: "get_media", B: c07B, N: "fresh"}, {Kind: "list", B: c07B}}
+	ra, _ := c07Request(ka, 1)
+	rb, _ := c07Request(kb, 2)
+	if ka == 2 { // A works on "fresh": make B do so too
+		rb.N = "fresh"
+		if rb.Up != nil {
+			rb.Up.Name = "fresh"
+		}
+		rb.N2 = "fresh"
+	}
+	run := func(withB bool) ([]Resp, *Resp, bool, bool) {
+		st, cleanup := mk.mk()
+		defer cleanup()
+		e := NewEmu(st)
+		for _, r := range c07SetupSessions() {
+			e.Exec(r)
+		}
+		threads := [][]Req{{ra}}
+		if withB {
+			threads = append(threads, []Req{rb})
+		}
+		s := NewSched(e, threads)
+		var bResp *Resp
+		blocked := false
+		o := s.Step(0) // A: parks holding the lock
+		if o.Kind != "at" {
+			s.Drain()
+			return nil, nil, false, false
+		}
+		if withB {
+			ob := s.Step(1)
+			if ob.Kind == "blocked" {
+				blocked = true
+				s.Cancel(1)
+				for k := 0; k < 20; k++ {
+					ob = s.Step(1)
+					if ob.Kind == "done" {
+						bResp = ob.Resp
+						break
+					}
+				}
+			}
+		}
+		s.Drain()
+		var fin []Resp
+		for _, f := range final {
+			fin = append(fin, e.Exec(f))
+		}
+		return fin, bResp, blocked, true
+	}
+	alone, _, _, okA := run(false)
+	both, bResp, blocked, _ := run(true)
+	c := Case{Store: mk.name, Tag: fmt.Sprintf("abandoned-%d-%d", ka, kb), Prog: []Req{ra, rb}, Obs: []Resp{{Status: 200, Kind: "none"}, {Status: 200, Kind: "none"}}}
+	if !okA || !blocked {
+		return c // B did not queue behind A (different objects): nothing to judge
+	}
+	if bResp == nil {
+		c.Obs[1].Notes = append(c.Obs[1].Notes, "the abandoned request never returned")
+		return c
+	}
+	c.Obs[1] = Resp{Status: bResp.Status, Kind: "none"}
+	if bResp.Status >= 200 && bResp.Status < 300 {
+		c.Obs[1].Notes = append(c.Obs[1].Notes, fmt.Sprintf("a request abandoned while it waited for the object lock was answered %d", bResp.Status))
+	}
+	canon := func(rs []Resp) string {
+		rank := rankGens(rs)
+		var sb []string
+		for _, r := range rs {
+			sb = append(sb, r.coq(rank))
+		}
+		return fmt.Sprint(sb)
+	}
+	if canon(alone) != canon(both) {
+		c.Obs[1].Notes = append(c.Obs[1].Notes, "a request abandoned while it waited for the object lock changed the stored objects")
+	}
+	return c
 }
